@@ -811,8 +811,33 @@ func gen(t *rapid.T) Case {
 	return c
 }
 
+// dialCells: every quick run executes these: a connection dialed with a timeout (the dial timer is armed while the
+// connect is pending and must be gone once it is established) that is then ended by each kind of deadline or by
+// the application, alone and beside other connections, in every epoll mode. The generated search reaches these
+// shapes too, but only a few times per run and with the arming of the dial timer left to a race.
+func dialCells() []Case {
+	var out []Case
+	for _, m := range vlib.Modes {
+		for _, async := range []bool{false, true} {
+			if async && m == vlib.ModeLT {
+				continue
+			}
+			for _, k := range []string{"writedl-bare", "writedl", "readdl", "close"} {
+				dial := ConnSpec{Birth: "dial", Transport: "tcp", DialWithTimeout: true, Causes: []Cause{{K: k}}}
+				out = append(out, Case{Mode: m, NPoller: 1, Async: async, Conns: []ConnSpec{dial}, StopUs: 5000})
+				out = append(out, Case{Mode: m, NPoller: 2, Async: async, StopUs: 5000, Conns: []ConnSpec{
+					{Birth: "add", Transport: "tcp", Traffic: true, Causes: []Cause{{K: "peerclose", DelayUs: 2000}}},
+					dial,
+					{Birth: "accept", Transport: "tcp", Causes: []Cause{{K: "readdl"}}}}})
+			}
+		}
+	}
+	return out
+}
+
 func TestCheck(t *testing.T) {
 	r := vlib.NewRunner(t, "C03")
+	vlib.RunCases(r, "dial-cells", dialCells(), runCase, true)
 	vlib.RunCheck(r, vlib.Check[Case]{Name: "lifecycle", N: r.Pick(400, 10000), Gen: gen, Run: runCase, Confirm: true, RecordCurrent: true})
 	vlib.RunCheck(r, vlib.Check[Churn]{Name: "churn", N: r.Pick(160, 4000), Gen: genChurn, Run: runChurn, Confirm: true, RecordCurrent: true})
 	vlib.RunCheck(r, vlib.Check[PendingDials]{Name: "pending-dials", N: r.Pick(240, 6000), Gen: genPendingDials, Run: runPendingDials, Confirm: true, RecordCurrent: true})
